@@ -10,7 +10,7 @@ from vf.props import common
 
 ID = "C02"
 LEVEL = "exploration"
-TECHNIQUE = "Hypothesis-generated trees x piece lengths x four v2-capable creators (+ exhaustive single-file boundary grid) against two independent BEP 52 merkle formulations ; optional second act (one file rewritten in place, same process creates again)"
+TECHNIQUE = "Hypothesis-generated trees x piece lengths x four v2-capable creators (+ exhaustive single-file boundary grid) against two independent BEP 52 merkle formulations ; optional second act (one file rewritten in place, same process creates again) and optional warm-up (unrelated create with another creator / piece length first)"
 RULE = ("Cases: generated content tree x piece length x creator in {TorrentFileV2, TorrentAssembler v2, TorrentFileHybrid, "
         "TorrentAssembler hybrid} x route (library / CLI for the assembler). Oracle: file-tree leaves = files on disk "
         "(paths, lengths), pieces root = reference root (bottom-up and top-down formulations agree), empty files have no "
@@ -42,7 +42,7 @@ def strategy(tier):
             route = draw(st.sampled_from(["lib", "cli"]))
         t = draw(trees.tree(P, max_files=8 if tier == "quick" else 20, cli_safe=(route == "cli")))
         return {"tree": t, "P": P, "creator": creator, "route": route,
-                "progress": draw(st.sampled_from([0, 0, 1, 2])), "again": draw(common.second_act())}
+                "progress": draw(st.sampled_from([0, 0, 1, 2])), "again": draw(common.second_act()), "warm": draw(common.warmup())}
     return case()
 
 
@@ -69,11 +69,17 @@ def run_case(case):
     with sandbox.Scratch("c02") as scr:
         root = common.make(scr, tree)
         out = os.path.join(scr, "out", "o.torrent")
+        warmed = common.apply_warmup(scr, case.get("warm"))
         try:
             m = common.create(case["creator"], case["route"], root, out, P, case["progress"])
         except Exception as e:
             return Outcome(Violation("C02:exception:%s" % type(e).__name__, "create raised %r" % (e,)), True, ["exception"])
         first = judge(m, tree, P)
+        if warmed:
+            first.classes = tuple(first.classes) + ("after-warm-up", "after-warm-up-other-P" if case["warm"]["P"] != P else "after-warm-up-same-P")
+            if first.violation is not None:
+                first.violation.sig = "C02:warmed:" + first.violation.sig.split(":", 1)[1]
+                first.violation.msg = "after an unrelated create in the same process (%s, piece length %d): %s" % (case["warm"]["creator"], case["warm"]["P"], first.violation.msg)
         if first.violation is not None or not case.get("again"):
             return first
         tree2 = common.apply_second_act(tree, root, case["again"])
